@@ -536,6 +536,49 @@ def check_validate_first(ctx, rule: str) -> None:
             if missing:
                 rep.bad(rule, f"{m.qname}:validations", f"{m.module.rel}:{m.lineno}", f"validation call(s) {sorted(missing)} are gone from {name}()")
                 continue
+            if name == "map":
+                # option validators run() applies up front to a parameter that map() forwards unchanged
+                # must be applied by map() up front as well (else the rejection happens inside the map span)
+                run_m = [r_ for r_ in template_methods(db, "run") if r_.is_async == m.is_async][0]
+                # (validator name, run parameter): V(p) or V(p, graph) called by run() itself or, one level down,
+                # by a validation function run() hands the parameter to
+                opt: list[tuple[str, str]] = []
+
+                def option_calls(f_, back):  # back: local name -> run parameter
+                    for c_ in db.calls_in(f_):
+                        pos = [a for a in c_.args if isinstance(a, ast.Name)]
+                        if len(pos) != len(c_.args) or c_.keywords or not pos:
+                            continue
+                        ps = [a.id for a in pos if a.id in back]
+                        others = [a.id for a in pos if a.id not in back]
+                        if len(ps) == 1 and all(o == "graph" for o in others):
+                            for cal in db.resolve_call(c_, f_):
+                                g_ = cal.func
+                                if g_ is not None and any(isinstance(x, ast.Raise) for x in ast.walk(g_.node)) and g_.module.name.startswith("hypergraph.runners"):
+                                    opt.append((g_.name, back[ps[0]]))
+
+                option_calls(run_m, {p_: p_ for p_ in run_m.param_names if p_ not in ("graph", "self", "values")})
+                for c_ in db.calls_in(run_m):
+                    for cal in db.resolve_call(c_, run_m):
+                        g_ = cal.func
+                        if g_ is None or not g_.name.startswith("validate_"):
+                            continue
+                        b_ = bind_args(c_, g_)
+                        back = {k_: v_.id for k_, v_ in b_.items() if isinstance(v_, ast.Name) and v_.id in run_m.param_names and v_.id not in ("graph", "values")}
+                        if back:
+                            option_calls(g_, back)
+                for vname, prm in sorted(set(opt)):
+                    if prm not in m.param_names:
+                        continue
+                    forwarded = any(isinstance(k.value, ast.Name) and k.value.id == prm and k.arg == prm for c2 in ast.walk(m.node) if isinstance(c2, ast.Call) and isinstance(c2.func, ast.Attribute) and c2.func.attr == "run" for k in c2.keywords)
+                    if not forwarded:
+                        continue
+                    mine = {n for n in cfg.nodes for c3 in cfg.calls_at(n) if vname in call_names(db, c3, m) and c3.args and isinstance(c3.args[0], ast.Name) and c3.args[0].id == prm}
+                    if mine:
+                        have.setdefault(f"{vname}({prm})", set()).update(mine)
+                        rep.ok(rule, f"{m.qname}:forwarded-option:{prm}", m.loc(), f"{vname}({prm}) is applied by map() itself")
+                    else:
+                        rep.bad(rule, f"{m.qname}:forwarded-option:{prm}", m.loc(), f"map() forwards '{prm}' to every item's run() but does not apply {vname}({prm}) itself: an invalid value is rejected only inside the map-level span (RunStart/RunEnd are emitted for a rejected call)")
             first_obs = []
             for n in cfg.nodes:
                 for c in cfg.calls_at(n):
@@ -582,6 +625,7 @@ AS = "src/hypergraph/runners/async_/superstep.py"
 TS = "src/hypergraph/runners/_shared/template_sync.py"
 TA = "src/hypergraph/runners/_shared/template_async.py"
 VARIANTS = [
+    Variant("map-forwards-on-missing-unvalidated", TS, sub_first(r"        validate_map_compatible\(graph\)\n        _validate_on_missing\(on_missing\)\n", "        validate_map_compatible(graph)\n"), {"C12.R5"}),
     Variant("sync-no-error-event", SS, replace_once("                if active:\n                    dispatcher.emit(build_node_error_event(run_id, node_span_id, run_span_id, node, graph))\n", "                pass\n"), {"C12.R1"}),
     Variant("async-error-event-narrow", AS, replace_once("        except Exception:\n            if active:\n                await dispatcher.emit_async(build_node_error_event", "        except ValueError:\n            if active:\n                await dispatcher.emit_async(build_node_error_event"), {"C12.R1"}),
     Variant("async-store-outside-try", AS, replace_once("            # Store result in cache\n            if cache is not None and cache_key:\n                store_in_cache(node, outputs, new_state, cache, cache_key)\n\n            if active:\n                route_evt = build_route_decision_event(run_id, run_span_id, node, graph, new_state)\n                if route_evt is not None:\n                    await dispatcher.emit_async(route_evt)\n                await dispatcher.emit_async(build_node_end_event(run_id, node_span_id, run_span_id, node, graph, duration_ms))\n\n            return node, outputs, input_versions, wait_for_versions\n        except Exception:\n            if active:\n                await dispatcher.emit_async(build_node_error_event(run_id, node_span_id, run_span_id, node, graph))\n            raise\n", "        except Exception:\n            if active:\n                await dispatcher.emit_async(build_node_error_event(run_id, node_span_id, run_span_id, node, graph))\n            raise\n        # Store result in cache\n        if cache is not None and cache_key:\n            store_in_cache(node, outputs, new_state, cache, cache_key)\n\n        if active:\n            route_evt = build_route_decision_event(run_id, run_span_id, node, graph, new_state)\n            if route_evt is not None:\n                await dispatcher.emit_async(route_evt)\n            await dispatcher.emit_async(build_node_end_event(run_id, node_span_id, run_span_id, node, graph, duration_ms))\n\n        return node, outputs, input_versions, wait_for_versions\n"), {"C12.R1"}),
